@@ -34,7 +34,9 @@ def gen(tier, rng):
     for nm in ["", "X-A\r\nInjected", "X\tA", "Xé", "X A", "X:A", "X" * 76, "X" * 77, "X~", "X-Ok", "x\x00y", "\x7f"]:
         cases.append(f"hname\t{hexs(nm) if nm else '-'}")
         cases.append(f"hval\t{hexs(nm) if nm else '-'}\t{hexs('value')}")
-    names = ["Subject", "subject", "SUBJECT", "X-A", "x-a", "To", "Comments"]
+    # names that differ in letter case only are one field; names that differ in a punctuation character whose codes differ by
+    # 0x20 ('[' / '{', ']' / '}', '^' / '~', '@' / '`', '\\' / '|') are two (round 7: C02/m19 folded the case bit of every octet)
+    names = ["Subject", "subject", "SUBJECT", "X-A", "x-a", "To", "Comments", "X-Slot[1]", "X-Slot{1}", "x-slot[1]", "X-K^", "X-K~", "X-At@", "X-At`", "X-B\\", "X-B|"]
     nh = {"quick": 600, "search": 2000, "thorough": 10000}[tier]
     for _ in range(nh):
         ops = []
